@@ -15,8 +15,10 @@ handle state machine `BlocV.CApi.step` (driver command `seq`). Both print one to
   model `hazard:*` token      the library must crash there, and the hazard must be a recorded (status known) finding
   leak=1 after the caller freed everything: every LeakSanitizer record must carry the call-site signature of a
            recorded finding of status `known` that the case is entitled to (it used the text / program of that
-           finding), else VIOLATION. Repaired findings (status `fixed`: the two null accessors, the createEnv leak)
-           entitle nothing: a leak below FunctorManager::createEnv, or a crash in bloc_literal / bloc_tabchar, is a
+           finding), else VIOLATION. Repaired findings (status `fixed`: the two null accessors, the createEnv leak, and since
+           C15R4 the left-operand leak of the binary operators, the IF-condition leak and the RETURN leak) entitle nothing —
+           "a rejected parse leaves nothing allocated" is LeakSanitizer's verdict on the generated texts, never a theorem: a
+           lost right operand at one of the operator lines of parse_expression.cpp, a leak below FunctorManager::createEnv, or a crash in bloc_literal / bloc_tabchar, is a
            violation like any other.
 Memory reclamation is NOT modelled in Lean: leaks are LeakSanitizer's verdict only.
 """
@@ -82,14 +84,14 @@ DEFAULT_FINDINGS = [
      "what": "(repaired) a runtime error while evaluating an argument of a user function call leaked the callee context "
              "(createEnv: the context taken from the cache / created was neither released nor put back when store() threw; "
              "it is now handed back to the function's context cache)"},
-    {"property": "C15", "id": KF_L_SUB, "status": "known", "site": "blocc/parse_expression.cpp:ParseExpression::sum (also the other binary operators using assertType(result, ..., false))",
+    {"property": "C15", "id": KF_L_SUB, "status": "fixed", "commit": "443d77e", "site": "blocc/parse_expression.cpp:ParseExpression::sum (also the other binary operators using assertType(result, ..., false))",
      "witness": "q9 = \"abc\" - 1;",
      "what": "a type error on the LEFT operand of a binary operator leaks the already parsed right operand "
              "(new OpSUBExpression(assertType(result,…,false), assertType(term(),…)): the right argument is evaluated first)"},
-    {"property": "C15", "id": KF_L_IF, "status": "known", "site": "blocc/statement_if.cpp:IFStatement::parse",
+    {"property": "C15", "id": KF_L_IF, "status": "fixed", "commit": "d070b9e", "site": "blocc/statement_if.cpp:IFStatement::parse",
      "witness": "if true then q9 = 1;     (text ends inside the IF block)",
      "what": "a parse error (e.g. end of text) inside the body of IF / ELSIF leaks the condition expression"},
-    {"property": "C15", "id": KF_L_RET, "status": "known", "site": "blocc/statement_return.cpp:RETURNStatement::parse",
+    {"property": "C15", "id": KF_L_RET, "status": "fixed", "commit": "c0de6cd", "site": "blocc/statement_return.cpp:RETURNStatement::parse",
      "witness": "return      (text ends right after the keyword)",
      "what": "end of text right after `return` leaks the RETURNStatement (p.front() throws before the try block)"},
     {"property": "C15", "id": KF_L_MEMB, "status": "known", "site": "blocc/expression_item.cpp:ItemExpression::parse, blocc/member/member_*.cpp:parse",
@@ -121,6 +123,11 @@ def left_operand_sites():
             fn = m.group(1)
         m = re.search(r"new Op\w+Expression\(assertType(?:Uniform)?\(result, [^()]*, false\), assertType(?:Uniform)?\((\w+)\(\),", ln)
         if m and fn:
+            sites.add(("bloc::ParseExpression::" + m.group(1), "bloc::ParseExpression::" + fn, no))
+        # the repaired shape: `assertType(result, T, p, ctx, false);` in a statement of its own, then
+        # `new Op…Expression(result, assertType(Q(), T, p, ctx))` — still the place where a right operand would be lost
+        m = re.search(r"new Op\w+Expression\(result, assertType(?:Uniform)?\((\w+)\(\),", ln)
+        if m and fn and no >= 2 and re.search(r"^\s*assertType(?:Uniform)?\(result, [^()]*, false\);", src[no - 2]):
             sites.add(("bloc::ParseExpression::" + m.group(1), "bloc::ParseExpression::" + fn, no))
     return sites
 
@@ -950,8 +957,8 @@ class C15(Check):
             "template programs raise at run time); plus a fixed corpus: every typed accessor x every value type x null/not, "
             "the operator family (every operator spelling x 5 operand forms x {integer,string,boolean}^2 operand types x "
             "{bloc_parse_expression, bloc_parse_executable}, generated in the model: rejected iff Typing.acceptBin/acceptUn rejects; "
-            "code, position, context still usable, leak bounded by the number of left-operand type errors at the source lines of "
-            "the pattern), "
+            "code, position, context still usable, and nothing left allocated according to LeakSanitizer — the left-operand leak "
+            "pattern is a repaired finding), "
             "the witnesses of the recorded findings, every truncation of 7 programs (leak verdict only). Each call's "
             "result, out-parameters, re-read library-owned pointers and bloc_errno/bloc_strerror state are compared token by "
             "token with the Lean handle state machine; ASan/UBSan watch every call; after the caller freed everything "
@@ -1112,8 +1119,11 @@ class C15(Check):
         context; after every rejected text a good text is parsed and evaluated / run in the same context ("still
         usable"); an accepted text must parse (and have the static type the model computes). The model's answer for
         `@i` is a catalog entry iff Typing.acceptBin / acceptUn rejects the operand types (theorem typed_rejection_iff).
-        The left-operand leak pattern (finding C15.leak_sub_operand_type_error) is allowed exactly as many lost
-        objects as the case has texts whose LEFT operand alone is ill-typed."""
+        The left-operand leak pattern (finding C15.leak_sub_operand_type_error) is REPAIRED (status fixed): the left
+        operand is checked before the right one is parsed, so these texts must leave nothing allocated (LeakSanitizer's
+        verdict) and report the error at the first token of the right operand; `lsub_n` (texts whose LEFT operand alone is
+        ill-typed) only bounds the allowance while the finding's status is `known` — with `fixed` a lost object at one of
+        the pattern's source lines is reported as the return of the repaired defect."""
         ops_ = self.opcases()
         C = []
         groups = {}
